@@ -559,6 +559,12 @@ func c10Run(t *testing.T, c *choice.Stream, r *Result, opt RunOpt, forced *c10Fo
 				}
 				return
 			}
+			if refused && ch.IsException(derr) && !cl.IsClosed() {
+				// the server had ended the query before the cancellation: there was
+				// nothing left to cancel (where the streams stand then is C04's subject)
+				r.Probe("refused_then_cancelled_client_open")
+				return
+			}
 			if !cl.IsClosed() || !conn.IsClosed() {
 				r.Violate("not-closed", "do-not-closed:"+gateName, "Do returned %q in the middle of the exchange but client closed=%v connection closed=%v (server script %d/%d)", derr, cl.IsClosed(), conn.IsClosed(), srv.ScriptPos(), len(srv.Script))
 				return
